@@ -879,8 +879,18 @@ class Walker:
   # ---------------------------------------------------------------- statements
   def assigned_names(self, stmts):
     s = set()
+    # targets of comprehensions / generator expressions live in their own scope: they do not rebind a variable of the enclosing function
+    comp_only = set()
+    for n in ast.walk(ast.Module(body=list(stmts), type_ignores=[])):
+      if isinstance(n, (ast.ListComp, ast.SetComp, ast.DictComp, ast.GeneratorExp)):
+        for g in n.generators:
+          for t in ast.walk(g.target):
+            if isinstance(t, ast.Name):
+              comp_only.add(id(t))
     for n in ast.walk(ast.Module(body=list(stmts), type_ignores=[])):
       if isinstance(n, ast.Name) and isinstance(n.ctx, (ast.Store, ast.Del)):
+        if id(n) in comp_only:
+          continue
         s.add(n.id)
       elif isinstance(n, ast.Call) and isinstance(n.func, ast.Attribute) and n.func.attr in MUTATORS \
           and isinstance(n.func.value, ast.Name):
